@@ -304,10 +304,50 @@ func c13_2(c *core.Ctx, p *core.Prog) {
 			}
 		}
 	})
+	// history independence: whether a column is measured depends on the field, the column and the transform map —
+	// not on other state of the builder (an "already overflowed" set, a counter): a column skipped because of what
+	// the stream carried before is a dictionary that grows unobserved
+	{
+		var dictMapF *types.Var
+		if st, ok := core.NamedOf(scan.Signature.Recv().Type()).Underlying().(*types.Struct); ok {
+			for k := 0; k < st.NumFields(); k++ {
+				if m, ok := st.Field(k).Type().Underlying().(*types.Map); ok && strings.Contains(core.TypeName(m.Elem()), "DictionaryField") {
+					dictMapF = st.Field(k)
+				}
+			}
+		}
+		var bad []string
+		for _, f := range core.WithClosures(scan) {
+			for _, b := range f.Blocks {
+				iff := core.IfOf(b)
+				if iff == nil {
+					continue
+				}
+				core.BackSlice(iff.Cond, func(v ssa.Value) bool {
+					if fa, ok := v.(*ssa.FieldAddr); ok {
+						if core.NamedOf(fa.X.Type()) == core.NamedOf(scan.Signature.Recv().Type()) && core.FieldVar(fa) != dictMapF {
+							bad = append(bad, fmt.Sprintf("%s (reads %s)", p.Pos(iff.Cond.Pos()), core.FieldName(fa)))
+							return false
+						}
+					}
+					return true
+				})
+			}
+		}
+		c.Check(len(bad) == 0, "history-independent", p.Pos(scan.Pos()), core.FuncName(scan), "the scan's decisions depend on the field, the column and the transform map only",
+			fmt.Sprintf("the dictionary scan takes a decision from other state of the record builder at %v: a column can be skipped depending on what the stream carried before (e.g. because a column of the same leaf name overflowed), and its dictionary then outgrows its index width and the configured limit unobserved", bad))
+	}
 	for _, kind := range []string{"StructType", "ListType", "UnionType", "MapType"} {
 		iff := arms[kind]
 		if iff == nil && kind == "UnionType" {
-			iff = arms["SparseUnionType"]
+			// concrete arms are as good as the interface arm only when every implementer has one: the schema
+			// projection (NewFieldFrom / NewTransformTreeFrom) descends into sparse and dense unions alike
+			if arms["SparseUnionType"] != nil && arms["DenseUnionType"] != nil {
+				iff = arms["SparseUnionType"]
+			} else if arms["SparseUnionType"] != nil || arms["DenseUnionType"] != nil {
+				c.Viol("arm="+kind, p.Pos(scan.Pos()), core.FuncName(scan), "the dictionary scan descends into one kind of union only (sparse or dense), while the schema projection supports both: dictionaries nested under the other kind are never measured and can outgrow their index width and the configured limit")
+				continue
+			}
 		}
 		key := "arm=" + kind
 		if iff == nil {
